@@ -68,6 +68,7 @@ struct C08Oracle {
   using index_t = typename Tree::index_t;
   using Snap = typename View<Tree>::Snap;
   bool haveBase = false;
+  bool baseStale = false;
   Snap base;
   std::set<std::pair<std::string, int>> outstanding;
   static constexpr uint32_t IGNORE = BLOCK_ACTIVE;   // the best chain is moved off the subtree and not moved back
@@ -82,7 +83,15 @@ struct C08Oracle {
     std::vector<std::string> bad;
     auto before = v.snap();
     bool carried = b.hasFlags(reason);
-    if (!haveBase) { base = before; haveBase = true; outstanding.clear(); }
+    if (!haveBase) {
+      base = before; haveBase = true; outstanding.clear();
+      // a removed subtree keeps FAILED_CHILD below a block whose only failure (FAILED_POP) is dropped by the removal:
+      // such a stale flag is cleaned by the next revalidation passing over it, so "inv + reval restores every flag" is
+      // only claimed for base states without stale FAILED_CHILD
+      baseStale = false;
+      for (auto* x : v.t.getAllBlocks())
+        if (x->pprev != nullptr && x->hasFlags(BLOCK_FAILED_CHILD) && !x->pprev->isFailed()) baseStale = true;
+    }
     doit();
     auto after = v.snap();
     auto bn = v.nameOf(b);
@@ -134,8 +143,8 @@ struct C08Oracle {
         if (x != &b && ((after.st[n] ^ before.st[n]) & (BLOCK_FAILED_BLOCK | BLOCK_FAILED_POP)))
           bad.push_back("reval: own failure flag of descendant " + n + " changed");
         // descendants invalid for another reason stay invalid; FAILED_CHILD iff the parent is failed
-        if (x->pprev != nullptr && x != &b && x->hasFlags(BLOCK_FAILED_CHILD) != x->pprev->isFailed())
-          bad.push_back("reval: FAILED_CHILD of " + n + " does not match its parent");
+        if (x->pprev != nullptr && x != &b && x->pprev->isFailed() && !x->hasFlags(BLOCK_FAILED_CHILD))
+          bad.push_back("reval: " + n + " lost FAILED_CHILD below a failed parent");
       } else if (after.st[n] != before.st[n]) {
         bad.push_back("reval: block " + n + " outside the subtree changed");
       }
@@ -147,7 +156,8 @@ struct C08Oracle {
     auto key = std::make_pair(bn, (int)reason);
     if (!outstanding.count(key)) { reset(); return bad; }   // removes a flag the base state carried
     outstanding.erase(key);
-    if (outstanding.empty()) {
+    if (outstanding.empty() && baseStale) haveBase = false;
+    else if (outstanding.empty()) {
       // every invalidation since the base has been undone: validity of every block and the tip set are back
       for (auto& kv : base.st) {
         auto it = after.st.find(kv.first);
@@ -223,8 +233,6 @@ struct Pow {
       bool curPop = cur != nullptr && cur->hasFlags(BLOCK_FAILED_POP);
       bool curLow = cur == nullptr || !cur->isValidUpTo(BLOCK_CONNECTED);
       if (a[1] == "0") res = "SKIP root";
-      // checked domain: a block removed while carrying FAILED_POP is not re-added (finding readd-failed-pop)
-      else if (!noguard() && cur != nullptr && cur->isDeleted() && curPop) res = "SKIP readd-failed-pop";
       // raiseValidity asserts the parent's level: a parent restored while carrying FAILED_POP stays at VALID_UNKNOWN
       else if (!noguard() && prev != nullptr && !prev->isValidUpTo(BLOCK_CONNECTED) && curLow && !curPop) res = "SKIP parent-level";
       else {
@@ -294,8 +302,7 @@ struct AltT {
       auto* p = I.idx(reg.alt.at(id).parent);
       auto* cur = tree.findBlockIndex(reg.alt.at(id).block.getHash());
       bool curPop = cur != nullptr && cur->hasFlags(BLOCK_FAILED_POP);
-      if (!noguard() && cur != nullptr && cur->isDeleted() && curPop) res = "SKIP readd-failed-pop";
-      else if (!noguard() && I.idx(id) == nullptr && p != nullptr && !p->isValidUpTo(BLOCK_VALID_TREE) && !curPop) res = "SKIP parent-level";
+      if (!noguard() && I.idx(id) == nullptr && p != nullptr && !p->isValidUpTo(BLOCK_VALID_TREE) && !curPop) res = "SKIP parent-level";
       else {
         res = I.hdr(id);
         if (res.find("bad-prev") != std::string::npos) res = "fail-prev";
